@@ -35,6 +35,10 @@ def build_pool():
     # arrays
     P += [Arr(u8, 4), Arr(i32, 3), Arr(s8, 2), Arr(f32, 2), Arr(b, 3), Arr(u64, 2)]
     P += [CArr(u16, 3), CArr(c, 8), CArr(s8, 2), CArr(i64, 2)]
+    # container x element matrix: every sequence spelling over the element classes not covered above
+    P += [CArr(f32, 4), CArr(f64, 3), CArr(b, 2), CArr(eu8, 2), CArr(Opt(u8), 2), CArr(Vec(u8), 2), CArr(u8, 130),
+          Arr(f64, 3), Arr(c, 3), Arr(ei16, 2), Arr(Opt(u8), 2), Arr(Vec(u8), 2), Arr(i8, 130),
+          Vec(f64), Vec(i8), Vec(i64), Vec(ei16), Vec(Pair(u8, s8)), Vec(Arr(u8, 2)), Vec(Tup(u8, u8))]
     # pairs / tuples
     P += [Pair(u8, s8), Tup(), Tup(i32), Tup(u8, s8, Vec(u8)), Tup(Tup(u8, i8), u16),
           Tup(u16, u16), Tup(f64, f64)]
